@@ -583,6 +583,10 @@ class Schema(ResolverMap):
         )
 
         cloned.merge_resolvers(self)
+        # Schema-wide and per-type default resolvers are not part of
+        # ``merge_resolvers``.
+        cloned.default_resolver = self.default_resolver
+        cloned.default_resolvers.update(self.default_resolvers)
 
         return cloned
 
